@@ -65,6 +65,27 @@ def _classify_dead(run: _site.Run, idx: Dict[str, List[Any]], page: str, href: s
             if isinstance(p, model.Module) and p.parent is not None and p.parent.contents.get(p.name) is not p:
                 return 'C11:link-into-module-displaced-by-reexported-name'
             p = p.parent
+    # "View In Hierarchy" of a class that the class index dropped: one of its bases is unresolved although a documented
+    # class has exactly that name, and findRootClasses() lets the entry of that root class overwrite the list of
+    # classes filed under the unresolved name
+    if target == 'classIndex.html' and frag:
+        c = run.system.allobjects.get(unquote(frag))
+        if isinstance(c, model.Class) and any(b is None and isinstance(run.system.allobjects.get(n), model.Class) for n, b in zip(c.bases, c.baseobjects)):
+            return 'C11:dead-anchor:class-dropped-from-class-index'
+    # a same-page link inside an inherited docstring: it was rendered relative to the page of the class the docstring
+    # comes from
+    if href.startswith('#') and frag:
+        from pydoctor import epydoc2stan
+        for o in idx.get(page, []):
+            if isinstance(o, model.Class):
+                for m in o.contents.values():
+                    if m.docstring is None:
+                        try:
+                            src = epydoc2stan.ensure_parsed_docstring(m)
+                        except Exception:  # noqa: BLE001
+                            src = None
+                        if src is not None and src is not m and src.parent is not o and src.parent is not None and unquote(frag) in src.parent.contents:
+                            return 'C11:dead-anchor:inherited-docstring-link-relative-to-source-page'
     # producer: where on the page does the link sit?
     where = 'body'
     for a in node.ancestors():
